@@ -59,13 +59,17 @@ Section Simplify.
   (** A (memoised) simplification function at some fixed limit. *)
   Definition simp := st -> ex -> ex * st.
 
-  (** The memoisation wrapper of [Simplifier::simplify]. *)
+  (** The memoisation wrapper of [Simplifier::simplify].  Since fix 7232075 a result that is the
+      bare symbol pi (a rule can hand back an unsimplified child when the limit has run out) is
+      replaced by the number before it is cached and returned. *)
+  Definition no_bare_pi (r : ex) : ex := match r with Pi => Num cpi | _ => r end.
   Definition with_cache (body : simp) : simp :=
     fun s e =>
       match lookup (cache s) e with
       | Some r => (r, s)
       | None =>
-          let '(r, s') := body s e in
+          let '(r0, s') := body s e in
+          let r := no_bare_pi r0 in
           (r, {| cache := (e, r) :: cache s'; hits := hits s' |})
       end.
 
